@@ -179,6 +179,8 @@ def run_red(case, stt):
         with lib("%s before an in-place update" % case["warm"]):
             _ = getattr(p, case["warm"])()
         upd = case.get("update")
+        if upd == "scale" and max(abs(e) for e in O.phase_fractions(p.copy(order="C"))) > 2**50:
+            upd = "negate"  # (x -3 would leave the property's domain, counts up to 2^52)
         with lib("in-place update %s" % upd):
             if upd == "negate":
                 np.negative(p, out=p)
